@@ -92,22 +92,25 @@ def probe_resolution(D, No, Nn, seed):
     return {"ok": bool(max(e1, e2, e3) <= 1e-10), "exact": e1, "roundtrip": e2, "mean": e3}
 
 
-def probe_interp(D, N, seed):
+def probe_interp(D, N, seed, indexing="ij"):
     import jax.numpy as jnp
     import exponax as ex
     rng = np.random.default_rng(seed)
     L = 2.5
     u, f = bandlimited(rng, 2, D, N, (N - 1) // 2, L)
-    fi = ex.FourierInterpolator(jnp.asarray(u), domain_extent=L)
+    if indexing != "ij":
+        # the state sampled on the library's own grid of that indexing
+        u = f(np.asarray(ex.make_grid(D, L, N, indexing=indexing)))
+    fi = ex.FourierInterpolator(jnp.asarray(u), domain_extent=L, indexing=indexing)
     worst = 0.0
     for _ in range(6):
         x = rng.uniform(-2 * L, 3 * L, D)
         worst = max(worst, float(np.max(np.abs(np.asarray(fi(jnp.asarray(x))) - f(x.reshape(D, *([1] * 0))).reshape(-1)))))
     # grid points of an arbitrary state
     w = rng.normal(size=(1,) + (N,) * D)
-    fw = ex.FourierInterpolator(jnp.asarray(w), domain_extent=L)
+    fw = ex.FourierInterpolator(jnp.asarray(w), domain_extent=L, indexing=indexing)
     idx = tuple(int(i) for i in rng.integers(0, N, D))
-    xg = np.array(idx) * L / N
+    xg = np.asarray(ex.make_grid(D, L, N, indexing=indexing))[(slice(None),) + idx]     # the coordinates of that grid point
     e2 = abs(float(np.asarray(fw(jnp.asarray(xg)))[0]) - float(w[(0,) + idx]))
     return {"ok": bool(worst <= 1e-10 and e2 <= 1e-10), "analytic": worst, "gridpoint": e2}
 
@@ -127,11 +130,12 @@ def oracle(ctx, deep):
                               "what": f"map_between_resolutions {No}->{Nn} (D={D}): {r}", "probe": "resolution",
                               "args": {"D": D, "No": No, "Nn": Nn, "seed": ctx.seed}, "observed": r})
         for N in ([6, 7] if D < 3 else [4, 5]):
-            r = probe_interp(D, N, ctx.seed)
-            ctx.count(("oracle_interp", D, N))
-            if not r["ok"]:
-                fails.append({"key": f"C15:interp:D{D}", "what": f"FourierInterpolator (D={D}, N={N}): {r}", "probe": "interp",
-                              "args": {"D": D, "N": N, "seed": ctx.seed}, "observed": r})
+            for indexing in (("ij", "xy") if D > 1 else ("ij",)):
+                r = probe_interp(D, N, ctx.seed, indexing)
+                ctx.count(("oracle_interp", D, N, indexing))
+                if not r["ok"]:
+                    fails.append({"key": f"C15:interp:D{D}:{indexing}", "what": f"FourierInterpolator (D={D}, N={N}, indexing={indexing}): {r}", "probe": "interp",
+                                  "args": {"D": D, "N": N, "seed": ctx.seed, "indexing": indexing}, "observed": r})
     seen, out = set(), []
     for f in fails:
         if f["key"] not in seen:
